@@ -271,6 +271,7 @@ class ModelWorld:
         self.table = {}
         self.hits = 0
         self.misses = 0
+        self.missed = []
         self.ambiguous = 0
         for name, oi, idx, operands, result in uf_apps:
             ops = []
@@ -316,6 +317,7 @@ class ModelWorld:
         # (np.array: scalar draws come back as NumPy scalars, which do not support item assignment)
         res = [np.array(r) for r in self.fallback.apply(name, out, ops, keypos, int_mod)]
         seen = {}
+        had_entries = bool(self.table.get(name))
         for ent_ops, oi, idx, val in self.table.get(name, []):
             if val is not None and self._match(ent_ops, flat):
                 if oi >= len(res) or len(idx) != res[oi].ndim or any(i >= n for i, n in zip(idx, res[oi].shape)):
@@ -328,6 +330,11 @@ class ModelWorld:
                 seen[(oi, idx)] = val
                 res[oi][idx] = val
                 self.hits += 1
+        if had_entries and not seen:
+            # the real code applied this function to operands that match no application of the symbolic execution: the concrete run has left
+            # the execution the model describes (float rounding, or an artefact of the encoding) — the replay is not faithful
+            self.misses += 1
+            self.missed.append(name)
         return res
 
 
@@ -380,5 +387,8 @@ def replay_outputs(traced, syms, res, uf_apps=(), oracle=None, rtol=1e-3, atol=1
             "uf_table_hits": w.hits, "differences": diffs, "function": traced.label}
     if w.ambiguous:
         info["rounding_level_ambiguity"] = w.ambiguous
+        return False, info
+    if w.misses and diffs:
+        info["unfaithful_replay"] = f"{w.misses} uninterpreted-function applications of the real run match no application of the symbolic execution: {sorted(set(w.missed))}"
         return False, info
     return bool(diffs), info
